@@ -472,6 +472,7 @@ def parse_kv(ans):
 class C03(PropBase):
     pid = "C03"
     coq_dirs = ["Base", "C08", "C03"]
+    translators = []
     bins = ["c03"]
     impl_timeout = 600
     impl_mem_gb = 4
